@@ -46,7 +46,9 @@ def dispatch (op : String) (args : List String) (obs : String) : String × Strin
   | "u8" => c07u8 args obs
   | "u8r" => c07u8r args obs
   | "wr" => c06wr args obs
+  | "wrc" => c06wr args obs   -- destination churning the byte pool: same model
   | "wm" => c06wm args obs
+  | "wmc" => c06wm args obs
   | "up" => c09up args obs
   | "hup" => c09hup args obs
   | "hupw" => c09hupw args obs
@@ -58,6 +60,8 @@ def dispatch (op : String) (args : List String) (obs : String) : String × Strin
   | "chup" => c11chup args obs
   | "chdl" => c11chdl args obs
   | "dbgup" => c11dbgup args obs
+  | "dbgupw" => c11dbgupw args obs
+  | "chdls" => c11chdls args obs
   | "dbgdl" => c11dbgdl args obs
   | "fw" => c12cw args obs
   | "sr" => c12sr args obs
